@@ -100,6 +100,21 @@ def merge (s : State) (b : List Update) : State × List Nat := mergeWith wins s 
 /-- the merge before "fix: gossip merge breaks exact ties by health severity". -/
 def mergeOld (s : State) (b : List Update) : State × List Nat := mergeWith supersedes s b
 
+/-- `incoming.first().map(|s| s.timestamp)` -/
+def headTs : List Update → Option Nat
+  | [] => none
+  | u :: _ => some u.reg.ts
+
+/-- NOT the code: `merge` with the Lamport clock advanced from the FIRST entry of the batch
+    (`incoming.first()`) instead of the maximum timestamp in the batch — the "gossip batches
+    are sorted newest-first" shortcut.  The register loop is the current one.  Kept only for
+    `mergeClockFromHead_witness`. -/
+def mergeClockFromHead (s : State) (b : List Update) : State × List Nat :=
+  let (r, ch) := mergeRegsWith wins s.regs b
+  match headTs b with
+  | none => ({ s with regs := r }, ch)
+  | some t => (syncTime { s with regs := r } t, ch)
+
 /-- `update_local` : tick, then insert unconditionally. -/
 def updateLocal (s : State) (m : Nat) (h : Health) (inc : Nat) : State × Reg :=
   let ts := s.clock + 1
